@@ -143,6 +143,65 @@ def run_cases(chk, model, cases, suite, two=False):
         chk.correspond(suite, desc, impl, outs)
 
 
+def run_source_only(chk, model):
+    """variables bound in the environment of the matcher mapped FROM only, open on the
+    target side: the target gets their value from the match (expected mapping and round
+    trip known by construction)"""
+    rng = chk.rng
+    heads_a = [("l10n/{locale}/", ["locale"]), ("{l}", ["locale"]), ("ref/{channel}/{locale}/", ["channel", "locale"]),
+               ("src/{channel}/", ["channel"]), ("{l}{channel}/", ["locale", "channel"])]
+    heads_b = [("/stage/{locale}/", ["locale"]), ("out/{channel}/", ["channel"]),
+               ("stage/{channel}/{locale}/", ["channel", "locale"]), ("merge-{locale}/", ["locale"]),
+               ("plain/", [])]
+    tails = [("browser/**", "browser/**", ["", "brand.ftl", "preferences/main.ftl", "a/b/c.ftl"]),
+             ("browser/**/*.ftl", "browser/**/*.ftl", None),
+             ("x-*.ftl", "y_*.ftl", ["brand", "", "a.b"]),
+             ("f.ftl", "g.ftl", [])]
+    reqs, impl, desc = [], [], []
+    for i in range(chk.n(300, 3000)):
+        ha, va = rng.choice(heads_a)
+        hb, vb = rng.choice(heads_b)
+        if not set(vb) <= set(va):
+            continue
+        ta, tb, fills = rng.choice(tails)
+        vals = {"locale": rng.choice(["de", "sr-Latn", "pt-BR"]), "channel": rng.choice(["beta", "release"])}
+        env_a = [(k, vals[k]) for k in va]
+        if "{l}" in ha:
+            env_a.append(("l", "l10n/{locale}/"))
+        # the target binds none of the shared variables, or only some of them
+        env_b = [(k, vals[k]) for k in vb if rng.random() < 0.25]
+
+        def rend(head, tail, fill):
+            t = head.replace("{l}", "l10n/{locale}/")
+            for k, v in vals.items():
+                t = t.replace("{%s}" % k, v)
+            if fills is None:
+                return t + tail.replace("**/", fill[0]).replace("*", fill[1])
+            return t + (tail.replace("**", fill) if "**" in tail else tail.replace("*", fill))
+        fill = (rng.choice(["", "d/", "d/e/"]), rng.choice(["main", "a.b"])) if fills is None else \
+            (rng.choice(fills) if fills else "")
+        a = (ha + ta, env_a, None)
+        b = (hb + tb, env_b, None)
+        path, want = rend(ha, ta, fill), rend(hb, tb, fill)
+        chk.count(("source-only", a, b, path))
+        chk.hist("source_only_target_env", len(env_b))
+        got = ml.impl_sub(a, b, path)
+        back = ml.impl_sub(b, a, want)
+        desc += [("sub", a, b, path), ("sub-back", b, a, want)]
+        impl += [got, back]
+        reqs += [(3, ml.side_sx(a) + ml.side_sx(b) + [canon(path)]),
+                 (3, ml.side_sx(b) + ml.side_sx(a) + [canon(want)])]
+        if got != [0, [canon(want)]]:
+            chk.fail("sub-drops-source-variable", {"a": a, "b": b, "path": path},
+                     {"got": got if got[0] else (common.l2s(got[1][0]) if got[1] else None),
+                      "expected": want})
+        else:
+            oracle_roundtrip(chk, None, a, b, path, tag="source-only")
+    if model:
+        outs = model.call(reqs)
+        chk.correspond("MATCHER-source-only", desc, impl, outs)
+
+
 def run(chk, runner_ok):
     rng = chk.rng
     model = Model("C11") if runner_ok else None
@@ -165,6 +224,7 @@ def run(chk, runner_ok):
     fixed.fills = ["1/", "2/y/3/", "f"]
     fixed.grammar_but_two = True
     run_cases(chk, model, [fixed] + cases, "MATCHER-two-starstar", two=True)
+    run_source_only(chk, model)
     # ---- stateful: derived matchers created after their source was used ----------
     ml.run_stateful(chk, model, chk.n(500, 5000))
     # ---- a variable used in the pattern and again inside another variable's value ----
